@@ -65,6 +65,9 @@ var sites = []site{
 	{"validateBasic", "gemmill/types/block.go", "ValidateBasic", "tree", "", "", "C02 C13"},
 	{"validateCommit", "gemmill/types/block.go", "ValidateCommit", "tree", "", "", "C02 C13"},
 	{"compareAccum", "gemmill/types/validator.go", "CompareAccum", "tree", "", "", "C16"},
+	// ---- transaction admission (C09)
+	{"preCheck", "eth/core/state_transition.go", "preCheck", "tree", "", "", "C09"},
+	{"executeKVTx", "chain/app/evm/evm.go", "executeKVTx", "tree", "", `state\.SetNonce`, "C09 C05"},
 	// ---- transport framing (C20)
 	{"packet_isLast", "gemmill/p2p/connection.go", "nextMsgPacket", "if", `len\(ch\.sending\)\W+maxMsgPacketPayloadSize`, "", "C20"},
 	{"packet_take", "gemmill/p2p/connection.go", "nextMsgPacket", "slicehi", `^ch\.sending\[:`, "", "C20"},
@@ -363,11 +366,29 @@ func isBoolExpr(e ast.Expr) bool {
 
 // tree of a statement list: the first terminating statement decides; other statements are skipped
 func (v *env) tree(stmts []ast.Stmt, stop *regexp.Regexp, ind string) string {
+	saved := map[string]string{} // bindings made on this path stay on this path
+	for k, x := range subst {
+		saved[k] = x
+	}
+	defer func() { subst = saved }()
 	for i, s := range stmts {
 		if stop != nil && stop.MatchString(src(s)) {
 			return "\"reach\""
 		}
 		switch x := s.(type) {
+		case *ast.AssignStmt:
+			// `a, err := f(...)`: from here on the names stand for results of that call
+			if x.Tok == token.DEFINE && len(x.Rhs) == 1 {
+				if call, ok := flat(x.Rhs[0]); ok {
+					if _, isCall := x.Rhs[0].(*ast.CallExpr); isCall {
+						for _, l := range x.Lhs {
+							if id, isId := l.(*ast.Ident); isId && id.Name != "_" {
+								subst[id.Name] = call + "_" + id.Name
+							}
+						}
+					}
+				}
+			}
 		case *ast.ReturnStmt:
 			parts := []string{}
 			for _, r := range x.Results {
